@@ -222,7 +222,9 @@ func c04Structured() []string {
 	locals := []string{"a", "A", "a.b", "A.b", "a+x", "A+X", "a+x+y", "a-b", "\"a.b\"", "\"a+b\"", "a\\+b", "a_b", "a!#$%&'*=?^`{|}~z", "\".a\"", "\"a.\"", "a.\\.b", "+x", "\"a b\"", "\"a@b\"", "a/b",
 		// characters that mean something in a URL: the read interfaces take the name from a path
 		"a%41b", "a%2Fb", "a%25b", "a%2Bx", "a%", "a%zz", "a?b", "a#b", "a&b=c", "a;b"}
-	domains := []string{"d.test", "D.Test", "sub.D.test", "[1.2.3.4]", "[IPv6:::1]", "[IPv6:2001:DB8::A]", "[::B]", "d.test.", "D.Test."}
+	domains := []string{"d.test", "D.Test", "sub.D.test", "[1.2.3.4]", "[IPv6:::1]", "[IPv6:2001:DB8::A]", "[::B]", "d.test.", "D.Test.",
+		// non-ASCII domains (refused today; if they are ever accepted the same relations apply)
+		"bücher.test", "ΣΟΦΟΣ.test", "ırmak.test"}
 	var out []string
 	for _, l := range locals {
 		for _, d := range domains {
